@@ -1,0 +1,9 @@
+//go:build !verif
+
+package gkvlite
+
+// No-op stubs of the verification hooks (see verif_on.go, build tag "verif").
+
+func verifYield(point int) {}
+
+func verifEvent(kind int, r *rootNodeLoc) {}
